@@ -45,7 +45,7 @@ pub fn plan(tier: Tier) -> Plan {
         rule: "E6: cases are histories (<= 200 ops) over {publish QoS 0/1/2 with a unique payload, subscribe, unsubscribe, manual PUBACK/PUBREC, ping, disconnect; broker PUBACK/PUBREC/PUBCOMP for a generated choice among the currently unacknowledged ids (so acks are out of order and id wrap-around collisions are common), duplicate / unsolicited / out-of-range / zero ids, acks of the wrong flow, v5 reason codes, inbound publishes and releases, SUBACK, UNSUBACK, PINGRESP, server DISCONNECT, mid-stream CONNACK; connection failure with generated session_present and receive_max} run against rumqttc::MqttState and rumqttc::v5::MqttState with inflight limit in {1..6 biased, 10, 100, 65535} and manual_acks on/off. A reference model (payload serial -> in flight(id) / awaiting PUBCOMP(id) / parked on a collision / done) is stepped in lock-step; after EVERY op the set revealed by clean() on a clone, united with `collision`, must equal the model's not-done set in both directions (same payload, id, QoS; a PUBREL exactly for the ids between PUBREC and PUBCOMP), and after a resumed reconnect every element must be returned for the wire again by the replay. A case is non-trivial when it contains >= 1 packet-id collision, or a failure while >= 1 QoS>0 publish was unacknowledged followed by a resumed session. Distinct = distinct case hash.".to_string() + crate::clientloop::props::C02_RULE,
         assumptions: vec![
             "User requests are fed to the state machine only when EventLoop::select() would feed them: inflight() < limit (v5: < min(limit, receive_max)) and no collision pending; otherwise the op is skipped and counted. The replay of `pending` after a resumed reconnect is fed unconditionally, as the event loop does.".into(),
-            "A failure is modelled exactly as the event loop handles any error: clean(); pending kept iff the generated session_present; v5: CONNACK fed to the state machine; pending replayed in order before anything else. Requests still queued in the channel at failure time (finding K2) belong to the event-loop engine and are not generated here.".into(),
+            "A failure is modelled exactly as the event loop handles any error: clean(); pending kept iff the generated session_present; v5: CONNACK fed to the state machine; pending replayed in order before anything else. Requests still queued in the channel at failure time (K2, repaired in /repo) belong to the event-loop engine and are not generated here.".into(),
             "Every Err returned by the state machine (rejected ack, keep-alive error, server DISCONNECT) is followed by that failure handling, as in EventLoop::poll().".into(),
             "An acknowledgement of the wrong flow for an id in flight (PUBACK for a QoS 2 publish, PUBREC for a QoS 1 publish) may be rejected or accepted; either way the bookkeeping must follow the outcome.".into(),
         ],
